@@ -71,6 +71,9 @@ def _hist_worker(args) -> Dict[str, Any]:
     sample = None
     for r, o in zip(recs, outs):
         if r["op"] == "cfg":
+            if r.get("retained_changed"):
+                findings.append({"id": r["id"], "kind": "diff", "record": None,
+                                 "text": [f"a retained SimulationState changed after later phases (obtained at {x}): the recorded pre-states cannot be trusted" for x in r["retained_changed"][:3]]})
             continue
         for t in _triples(r):
             triples.add(t)
@@ -275,3 +278,8 @@ def router_layer(seed: int, n_cases: int) -> Dict[str, Any]:
 def events_layer(seed: int, n_cases: int) -> Dict[str, Any]:
     """whole runs through the real file-writing handlers, the written log parsed back and audited (C19)"""
     return generic_layer("events", "events", seed, n_cases, 49979693)
+
+
+def hashseed_layer(seed: int, n_cases: int) -> Dict[str, Any]:
+    """whole runs and function-level worlds repeated in separate interpreters under different PYTHONHASHSEED values (C01)"""
+    return generic_layer("hashseed", "hashseed", seed, n_cases, 86028157)
